@@ -147,7 +147,7 @@ struct SharedSim : Sim {
                 } else if (mode == 1) {
                         int n = 2 + (int) g.below(5);
                         p.cfg["tasks"] = n;
-                        p.cfg["simcpu"] = (int64_t) g.below(4); // 0 host, else a simulated profile
+                        p.cfg["simcpu"] = (int64_t) g.below(6); // 0 host, else a simulated profile (4, 5: the Avoton signature)
                         for (int i = 0; i < n; i++)
                                 p.cfg[strfmt("t%d_entry", i)] = g.chance(1, 2) ? (int64_t) g.below(N_RACE) : p.get("t0_entry", (int64_t) g.below(N_RACE));
                         int nops = 10 + (int) g.below(100);
@@ -364,7 +364,7 @@ struct SharedSim : Sim {
                 int n = (int) std::max<int64_t>(2, std::min<int64_t>(p.get("tasks"), 8));
                 // simulated CPU (same for all tasks)
                 SimCPU cpu;
-                switch (p.get("simcpu") % 4) {
+                switch (p.get("simcpu") % 6) {
                 case 0: break; // host pass-through
                 case 1:
                         cpu.passthrough = false;
@@ -378,14 +378,35 @@ struct SharedSim : Sim {
                         cpu.l7_ebx = C7_AVX2;
                         cpu.xcr0 = 7;
                         break;
-                default:
+                case 3:
                         cpu.passthrough = false;
                         cpu.l1_eax = 0x000906ea;
                         cpu.l1_ecx = C1_SSE4_1 | C1_SSE4_2 | C1_OSXSAVE | C1_AVX;
                         cpu.xcr0 = 7;
                         break;
+                case 4: // Atom C2000 signature: the SHA-512 resolvers take their own branch on it
+                        cpu.passthrough = false;
+                        cpu.l1_eax = 0x000406d8;
+                        cpu.l1_ecx = C1_SSE4_1 | C1_SSE4_2;
+                        break;
+                default:
+                        cpu.passthrough = false;
+                        cpu.l1_eax = 0x000406d0 | (uint32_t) (p.seed & 15);
+                        cpu.l1_ecx = C1_SSE4_1 | C1_SSE4_2 | C1_OSXSAVE | C1_AVX;
+                        cpu.xcr0 = 7;
+                        break;
                 }
                 g_simcpu = cpu;
+                r.cov.hit(strfmt("probe_race_cpu_profile_%d", (int) (p.get("simcpu") % 6)));
+                // every binding slot of the library: a first call binds its own entry point and leaves every other binding alone
+                static std::vector<std::pair<std::string, void **>> all_slots;
+                if (all_slots.empty())
+                        for (auto &sy : symbols_matching("", "_dispatched"))
+                                all_slots.emplace_back(sy, (void **) libsym(sy.c_str()));
+                std::vector<void *> others_before;
+                for (auto &s : all_slots)
+                        others_before.push_back(*s.second);
+                std::string foreign;
                 struct RestoreCpu {
                         ~RestoreCpu()
                         {
@@ -418,6 +439,18 @@ struct SharedSim : Sim {
                         want_result[k].assign(solo.result, solo.result + solo.result_len);
                         *slot = mbinit; // re-arm for the race
                 }
+                auto check_foreign = [&]() {
+                        for (size_t i = 0; i < all_slots.size() && foreign.empty(); i++) {
+                                bool raced = false;
+                                for (int k : distinct)
+                                        if (slots[k] == all_slots[i].second)
+                                                raced = true;
+                                if (!raced && *all_slots[i].second != others_before[i])
+                                        foreign = strfmt("%s changed from %s to %s although no first call of that entry point was made", all_slots[i].first.c_str(),
+                                                         addr_to_sym((uintptr_t) others_before[i]).c_str(), addr_to_sym((uintptr_t) *all_slots[i].second).c_str());
+                        }
+                };
+                check_foreign();
                 sched.reset();
                 static SharedSim *self;
                 self = this;
@@ -448,6 +481,7 @@ struct SharedSim : Sim {
                         steps++;
                         r.steps++;
                         check_slots();
+                        check_foreign();
                         uint64_t sh = 0x181;
                         for (int k : distinct)
                                 sh = mix64(sh, *slots[k] == mbinits[k] ? 1 : 2);
@@ -463,6 +497,18 @@ struct SharedSim : Sim {
                         e.violation("C18", "race-liveness", "C18/race-liveness", "first-call race did not finish in 5000 scheduling steps");
                 if (!bad_slot.empty())
                         e.violation("C18", "torn-binding", "C18/torn-binding", bad_slot);
+                if (!foreign.empty()) {
+                        // put the other bindings back so that the next run of this process starts from the same state
+                        for (size_t i = 0; i < all_slots.size(); i++) {
+                                bool raced = false;
+                                for (int k : distinct)
+                                        if (slots[k] == all_slots[i].second)
+                                                raced = true;
+                                if (!raced)
+                                        *all_slots[i].second = others_before[i];
+                        }
+                        e.violation("C18", "foreign-binding", "C18/foreign-binding", foreign);
+                }
                 for (int k : distinct)
                         if (*slots[k] != want_target[k])
                                 e.violation("C18", "wrong-binding", std::string("C18/wrong-binding/") + race_entries[k].name,
